@@ -1,6 +1,6 @@
 """C02 The hash equals the value defined by the written specification."""
 import astq
-from rules import aes, argon, blake, decode, driver, dsinit, interpsem, spec, sshash, x86loop, rtpreserve, a64sem, a64hsem, rvhsem, x86hsem, a64dsread, rvdsread, a64fp, rvfp, cfrcross
+from rules import aes, argon, blake, decode, driver, dsinit, interpsem, spec, sshash, x86loop, rtpreserve, a64sem, a64hsem, rvhsem, x86hsem, a64dsread, rvdsread, a64fp, rvfp, cfrcross, portable
 
 LEVEL = 'other'
 TECHNIQUE = 'constant-table and step-sequence agreement between doc/specs.md (parsed tables, hex blocks, lane diagrams) and the resolved AST / assembled objects; FIPS-197 decomposition for the AES round'
@@ -82,3 +82,4 @@ def run(ctx, R):
     rvfp.rule_fp_hsem(ctx, R)
     cfrcross.rule_a64(ctx, R)
     cfrcross.rule_rv(ctx, R)
+    portable.rule_endian_pair(ctx, R)
